@@ -44,6 +44,11 @@ pub enum Str {
     NonAscii(u8),
     InvalidUtf8(u8),
     Long(u16),
+    /// the string form of an address of the world: 0 the account named as sender, 1 the probe contract, 2 the gateway,
+    /// 3 the example app (a call whose destination is spelled like its own sender, or like the gateway)
+    Strkey(u8),
+    /// the same bytes as the other string of the call (chain = address)
+    SameAsOther,
 }
 
 #[derive(Clone, Debug, Serialize, Deserialize)]
@@ -68,11 +73,14 @@ fn strc() -> impl Strategy<Value = Str> {
         2 => (1u8..40).prop_map(Str::NonAscii),
         1 => (1u8..40).prop_map(Str::InvalidUtf8),
         1 => (300u16..12000).prop_map(Str::Long),
+        2 => (0u8..4).prop_map(Str::Strkey),
     ]
 }
 
-fn resolve(s: &Str, salt: u64) -> Vec<u8> {
+fn resolve(s: &Str, salt: u64, keys: &[Vec<u8>; 4]) -> Vec<u8> {
     match s {
+        Str::Strkey(k) => keys[*k as usize % 4].clone(),
+        Str::SameAsOther => vec![],
         Str::Empty => vec![],
         Str::Ascii(n) => seeded_bytes(salt, *n as usize).into_iter().map(|b| 0x20 + b % 95).collect(),
         Str::Long(n) => seeded_bytes(salt, *n as usize).into_iter().map(|b| 0x20 + b % 95).collect(),
@@ -131,7 +139,7 @@ impl Property for C13 {
                 1 => Just(Sender::AccountUnauthorisedAfterOwnInboundMessage),
             ],
             strc(),
-            strc(),
+            prop_oneof![12 => strc(), 1 => Just(Str::SameAsOther)],
             len_strategy(tier),
             any::<u64>(),
             prop_oneof![3 => Just(false), 1 => Just(true)],
@@ -144,7 +152,16 @@ impl Property for C13 {
         }
     }
     fn fixed_cases(&self, _tier: Tier) -> Vec<Case> {
-        crate::sweep::fixed_cases(300).into_iter().map(|s| Case { sweep: Some(s), ..blank() }).collect()
+        let mut v: Vec<Case> = crate::sweep::fixed_cases(300).into_iter().map(|s| Case { sweep: Some(s), ..blank() }).collect();
+        // destination (or chain) spelled like an address of the ledger, for the sender classes that must be announced
+        for sender in [Sender::AccountAuthorised, Sender::ContractAsItself, Sender::ViaExampleApp] {
+            for k in 0..4u8 {
+                v.push(Case { sender: sender.clone(), chain: Str::Ascii(8), addr: Str::Strkey(k), len: 40, seed: 5, window_open: false, sweep: None });
+                v.push(Case { sender: sender.clone(), chain: Str::Strkey(k), addr: Str::Ascii(8), len: 40, seed: 5, window_open: false, sweep: None });
+            }
+            v.push(Case { sender: sender.clone(), chain: Str::Ascii(8), addr: Str::SameAsOther, len: 40, seed: 5, window_open: false, sweep: None });
+        }
+        v
     }
 
     fn run(&self, case: &Case, cx: &mut Cx) -> Result<(), String> {
@@ -183,8 +200,23 @@ impl Property for C13 {
         let probe = CallerClient::new(&env, &probe_id);
         let acct = Address::generate(&env);
         let other = Address::generate(&env);
-        let chain_b = resolve(&case.chain, case.seed ^ 1);
-        let addr_b = resolve(&case.addr, case.seed ^ 2);
+        let strkey = |a: &Address| -> Vec<u8> {
+            let s = a.to_string();
+            let mut buf = vec![0u8; s.len() as usize];
+            s.copy_into_slice(&mut buf);
+            buf
+        };
+        let keys = [strkey(&acct), strkey(&probe_id), strkey(&gw.id), strkey(&example_id)];
+        let mut chain_b = resolve(&case.chain, case.seed ^ 1, &keys);
+        let mut addr_b = resolve(&case.addr, case.seed ^ 2, &keys);
+        if case.addr == Str::SameAsOther {
+            addr_b = chain_b.clone();
+        } else if case.chain == Str::SameAsOther {
+            chain_b = addr_b.clone();
+        }
+        if matches!(case.addr, Str::Strkey(_)) {
+            cx.label("destination_spelled_like_an_address_of_this_ledger");
+        }
         let payload_b = shaped_bytes(case.seed, case.len as usize);
         let chain = sstr_bytes(&env, &chain_b);
         let addr = sstr_bytes(&env, &addr_b);
